@@ -3,6 +3,8 @@
    the sequential reference (chunk j transformed block by block by stream j mod T, exported in
    load order) -- for any cipher stream object, any T >= 1, any input. *)
 From Wencry Require Import Bytes FileModel PipeConc PipeProps PipeProofs.
+From Wencry Require PipeSync.
+From Wencry.Gen Require Sync.
 Local Open Scope nat_scope.
 
 Section C03.
@@ -33,3 +35,9 @@ Theorem C03_each_block_exactly_once_by_its_owner : forall c ispadding T ls sched
   nth i (wsts (list (list N)) s) [] = owned_blocks T i ls.
 Proof. exact C03_each_block_exactly_once_by_its_owner_proof. Qed.
 Print Assumptions C03_each_block_exactly_once_by_its_owner.
+
+(* the functions of the hand-over protocol, as clang reads the CURRENT sources, are textually the ones the transition system
+   was written from (regenerated on every run; see PipeSync.v) *)
+Theorem C03_protocol_text_is_the_modelled_one : Sync.sync_skeleton = PipeSync.expected_skeleton.
+Proof. exact PipeSync.skeleton_unchanged. Qed.
+Print Assumptions C03_protocol_text_is_the_modelled_one.
